@@ -3,7 +3,13 @@ package rng
 
 type R struct{ s uint64 }
 
-func New(seed uint64) *R { return &R{s: seed*0x9E3779B97F4A7C15 + 0x1234567} }
+// New: the seed is hashed first, so that consecutive seeds give unrelated streams (not shifted copies of one stream).
+func New(seed uint64) *R {
+	z := seed + 0x632BE59BD9B4E019
+	z = (z ^ (z >> 30)) * 0xBF58476D1CE4E5B9
+	z = (z ^ (z >> 27)) * 0x94D049BB133111EB
+	return &R{s: z ^ (z >> 31)}
+}
 
 func (r *R) U64() uint64 {
 	r.s += 0x9E3779B97F4A7C15
